@@ -3,7 +3,7 @@ use num::traits::FloatConst;
 use num::{
     BigRational, CheckedAdd, CheckedDiv, CheckedMul, CheckedSub, FromPrimitive, Rational64, Signed,
 };
-use num::{Num, Rational32, ToPrimitive};
+use num::{Num, Rational32, ToPrimitive, Zero};
 use std::cmp::Ordering;
 use std::fmt;
 use std::fmt::{Binary, Formatter, LowerHex, Octal};
@@ -264,11 +264,19 @@ impl Number {
             Number::Fixnum(num) => num.unsigned_abs().into(),
             Number::Float(num) => num.abs().into(),
             Number::BigInt(num) => num.abs().into(),
-            Number::Rational(num) => num.abs().into(),
+            Number::Rational(_) => Number::from_big_rational(self.to_big_rational().unwrap().abs()),
         }
     }
 
     pub fn modulo(&self, rhs: &Number) -> Option<Number> {
+        if let (Some(lhs), Some(rhs)) = (self.to_big_integer(), rhs.to_big_integer()) {
+            if rhs.is_zero() {
+                return None;
+            }
+            return Some(Number::from_big_rational(BigRational::from_integer(
+                num::Integer::mod_floor(&lhs, &rhs),
+            )));
+        }
         match self % rhs {
             Some(num) => &(&num + rhs) % rhs,
             None => None,
@@ -280,7 +288,9 @@ impl Number {
             Number::Fixnum(_) => self.clone(),
             Number::Float(num) => num.round().into(),
             Number::BigInt(_) => self.clone(),
-            Number::Rational(num) => num.round().into(),
+            Number::Rational(_) => {
+                Number::from_big_rational(self.to_big_rational().unwrap().round())
+            }
         }
     }
 
@@ -289,7 +299,9 @@ impl Number {
             Number::Fixnum(_) => self.clone(),
             Number::Float(num) => num.floor().into(),
             Number::BigInt(_) => self.clone(),
-            Number::Rational(num) => num.floor().into(),
+            Number::Rational(_) => {
+                Number::from_big_rational(self.to_big_rational().unwrap().floor())
+            }
         }
     }
 
@@ -298,7 +310,9 @@ impl Number {
             Number::Fixnum(_) => self.clone(),
             Number::Float(num) => num.ceil().into(),
             Number::BigInt(_) => self.clone(),
-            Number::Rational(num) => num.ceil().into(),
+            Number::Rational(_) => {
+                Number::from_big_rational(self.to_big_rational().unwrap().ceil())
+            }
         }
     }
 
@@ -307,7 +321,9 @@ impl Number {
             Number::Fixnum(_) => self.clone(),
             Number::Float(num) => num.trunc().into(),
             Number::BigInt(_) => self.clone(),
-            Number::Rational(num) => num.trunc().into(),
+            Number::Rational(_) => {
+                Number::from_big_rational(self.to_big_rational().unwrap().trunc())
+            }
         }
     }
 
@@ -319,9 +335,17 @@ impl Number {
             },
             Number::Float(num) => num.powf(exp as f64).into(),
             Number::BigInt(lhs) => lhs.pow(exp).into(),
+            Number::Rational(num) if num.is_integer() => {
+                Number::Fixnum(*num.numer() as i64).pow(exp)
+            }
             Number::Rational(num) => {
-                if exp.to_i32().is_some() {
-                    num.pow(exp as i32).into()
+                // A power of a proper fraction is only representable for small
+                // exponents; compute those exactly, the others as floats.
+                if exp <= 64 {
+                    Number::from_big_rational(num::pow::pow(
+                        self.to_big_rational().unwrap(),
+                        exp as usize,
+                    ))
                 } else {
                     num.to_f64().unwrap_or(f64::NAN).powf(exp as f64).into()
                 }
@@ -344,6 +368,110 @@ impl Number {
             )),
             Number::Float(num) => BigRational::from_float(*num),
         }
+    }
+}
+
+impl Number {
+    /// The number that carries the exact value `value` in the canonical
+    /// representation: a fixnum or bignum for integers, a 32 bit rational if
+    /// numerator and denominator fit, and otherwise - the value is not
+    /// representable exactly - the nearest float.
+    fn from_big_rational(value: BigRational) -> Number {
+        if value.is_integer() {
+            let value = value.to_integer();
+            return match value.to_i64() {
+                Some(num) => Number::Fixnum(num),
+                None => Number::BigInt(Rc::new(value)),
+            };
+        }
+        match (value.numer().to_i32(), value.denom().to_i32()) {
+            (Some(numer), Some(denom)) => Number::Rational(Rational32::new_raw(numer, denom)),
+            _ => Number::Float(value.to_f64().unwrap_or(f64::NAN)),
+        }
+    }
+
+    /// The exact integer value of this number, if it is an exact integer.
+    fn to_big_integer(&self) -> Option<BigInt> {
+        match self {
+            Number::Fixnum(num) => Some(BigInt::from(*num)),
+            Number::BigInt(num) => Some((**num).clone()),
+            Number::Rational(num) if num.is_integer() => Some(BigInt::from(*num.numer())),
+            _ => None,
+        }
+    }
+
+    /// Exact Arithmetic
+    ///
+    /// Sum, difference, product or quotient of two exact numbers, computed with
+    /// exact rational arithmetic and returned in the canonical representation,
+    /// so that the result neither depends on which representation carries an
+    /// operand nor overflows the 32 bit rational arithmetic. Returns None if an
+    /// operand is inexact (or the divisor is zero): the caller then uses the
+    /// float-contagious operators.
+    /// Exact Fold
+    ///
+    /// Fold `op` ('+', '-' or '*') over exact operands from the left with exact
+    /// rational arithmetic, so that an intermediate result that is not
+    /// representable does not make a representable final result inexact.
+    /// Returns None if there is no operand or one of them is inexact.
+    pub fn exact_fold(op: char, operands: &[Number]) -> Option<Number> {
+        let (first, rest) = operands.split_first()?;
+        // fast path: fixnum arithmetic that does not overflow
+        let mut acc = first.clone();
+        let mut idx = 0;
+        while idx < rest.len() {
+            match (&acc, &rest[idx]) {
+                (Number::Fixnum(_), Number::Fixnum(_)) => match acc.exact_arithmetic(op, &rest[idx]) {
+                    Some(next @ Number::Fixnum(_)) => acc = next,
+                    _ => break,
+                },
+                _ => break,
+            }
+            idx += 1;
+        }
+        if idx == rest.len() && !matches!(acc, Number::Float(_)) {
+            return Some(acc);
+        }
+        let mut big = acc.to_big_rational().filter(|_| !matches!(acc, Number::Float(_)))?;
+        for it in &rest[idx..] {
+            if matches!(it, Number::Float(_)) {
+                return None;
+            }
+            let it = it.to_big_rational()?;
+            big = match op {
+                '+' => big + it,
+                '-' => big - it,
+                '*' => big * it,
+                _ => return None,
+            };
+        }
+        Some(Number::from_big_rational(big))
+    }
+
+    pub fn exact_arithmetic(&self, op: char, rhs: &Number) -> Option<Number> {
+        if matches!(self, Number::Float(_)) || matches!(rhs, Number::Float(_)) {
+            return None;
+        }
+        // fast path: fixnum arithmetic that does not overflow
+        if let (Number::Fixnum(lhs), Number::Fixnum(rhs)) = (self, rhs) {
+            let result = match op {
+                '+' => lhs.checked_add(rhs),
+                '-' => lhs.checked_sub(rhs),
+                '*' => lhs.checked_mul(rhs),
+                _ => None,
+            };
+            if let Some(result) = result {
+                return Some(Number::Fixnum(result));
+            }
+        }
+        let (lhs, rhs) = (self.to_big_rational()?, rhs.to_big_rational()?);
+        Some(Number::from_big_rational(match op {
+            '+' => lhs + rhs,
+            '-' => lhs - rhs,
+            '*' => lhs * rhs,
+            '/' if !rhs.is_zero() => lhs / rhs,
+            _ => return None,
+        }))
     }
 }
 
@@ -746,6 +874,14 @@ impl Number {
     /// we define quotient over all floats with the expectation that the caller can check the
     /// inputs for strict conformance.
     pub fn quotient(&self, rhs: &Self) -> Option<Number> {
+        // Exact integers in any representation divide exactly (BigInt division
+        // truncates); this also covers i64::MIN / -1, which overflows a fixnum.
+        if let (Some(lhs), Some(rhs)) = (self.to_big_integer(), rhs.to_big_integer()) {
+            if rhs.is_zero() {
+                return None;
+            }
+            return Some(Number::from_big_rational(BigRational::from_integer(lhs / rhs)));
+        }
         match self {
             Number::Fixnum(lhs) => match rhs {
                 Number::Fixnum(rhs) => Some((lhs / rhs).into()),
@@ -809,6 +945,12 @@ impl Rem for &Number {
     /// The spec only defines remainder for integers but this operation is also used by other
     /// functions that deal with numbers of all types internally.
     fn rem(self, rhs: Self) -> Self::Output {
+        if let (Some(lhs), Some(rhs)) = (self.to_big_integer(), rhs.to_big_integer()) {
+            if rhs.is_zero() {
+                return None;
+            }
+            return Some(Number::from_big_rational(BigRational::from_integer(lhs % rhs)));
+        }
         match self {
             Number::Fixnum(lhs) => match rhs {
                 Number::Fixnum(rhs) => Some((lhs % rhs).into()),
